@@ -68,6 +68,8 @@ def _system(draw, big):
         modes = []
         for _ in range(nm):
             modes.append({"w": draw(st.integers(100, 1500)), "hr20": draw(st.integers(0, 40) | st.sampled_from([0, 10, 20])),
+                          # nearly equal (not equal) Huang-Rhys factors on different modes: HR = hr20/20 + hre*1e-4
+                          "hre": draw(st.sampled_from([0, 0, 1, 2, 4, 7])),
                           "neg": draw(st.booleans()),
                           "n0": draw(st.integers(1, 3 if not big else 4)), "n1": draw(st.integers(1, 3 if not big else 4))})
         mols.append({"E": draw(st.integers(9000, 16000)), "d": [draw(st.integers(-4, 4)) / 2.0 for _ in range(3)],
@@ -141,6 +143,10 @@ def _shift(case, ctx):
     ctx.close("franck-condon/rows-normalised", numpy.sum(S[:20, :] ** 2, axis=1), numpy.ones(20), rtol=0, atol=1e-8)
 
 
+def _hr(md):
+    return md["hr20"] / 20.0 + md.get("hre", 0) * 1.0e-4
+
+
 def _make(qr, case):
     mols = []
     modes_out = []
@@ -153,7 +159,7 @@ def _make(qr, case):
                 mol.add_Mode(mode)
                 mode.set_nmax(0, md["n0"])
                 mode.set_nmax(1, md["n1"])
-                hr = md["hr20"] / 20.0
+                hr = _hr(md)
                 if md["neg"]:
                     mode.set_shift(1, -math.sqrt(2.0 * hr))
                 else:
@@ -171,7 +177,7 @@ def _system_check(case, ctx):
         mult = 1
     allmodes = [md for m in case["mols"] for md in m["modes"]]
     ctx.label("system", "N=%d" % n, "modes=%d" % len(allmodes), "mult=%d" % mult)
-    good_mode = any(md["hr20"] / 20.0 > 0.05 and md["n0"] >= 2 and md["n1"] >= 2 for md in allmodes)
+    good_mode = any(_hr(md) > 0.05 and md["n0"] >= 2 and md["n1"] >= 2 for md in allmodes)
     coupled = any(J[i][j] != 0 for i in range(n) for j in range(i + 1, n))
     ctx.mark_nontrivial(good_mode and (n == 1 or coupled))
 
@@ -182,7 +188,7 @@ def _system_check(case, ctx):
 
     # ---- HR / shift relation -----------------------------------------------------
     for md, mode in zip(allmodes, modes):
-        hr = md["hr20"] / 20.0
+        hr = _hr(md)
         want = (-1.0 if md["neg"] else 1.0) * math.sqrt(2.0 * hr)
         ctx.close("hr-shift", mode.get_shift(1), want, rtol=1e-12, atol=1e-14)
         ctx.close("hr-roundtrip", mode.get_HR(1), hr, rtol=1e-12, atol=1e-14)
@@ -251,7 +257,7 @@ def _system_check(case, ctx):
     minfo = []
     for i, m in enumerate(case["mols"]):
         for md in m["modes"]:
-            hr = md["hr20"] / 20.0
+            hr = _hr(md)
             minfo.append((i, md["w"] * orc.CM2INT, (-1.0 if md["neg"] else 1.0) * math.sqrt(2.0 * hr)))
     ns = len(states)
     Href = numpy.zeros((ns, ns))
